@@ -11,6 +11,7 @@ mod props;
 mod rng;
 mod stats;
 mod world;
+mod xmlscan;
 
 use driver::*;
 use known::KnownFile;
